@@ -1949,3 +1949,39 @@ def entrycount(F, R):
                 R.ob('C10.region-count', ok, {'driver': f.q})
                 if not ok:
                     R.find('C10.region-count', f, 'driver', 'the region-counting entry visitor is invoked from %s, which iterates a list of target states in the order they were written, not the regions in order: for targets listed out of region order the completion transition of an entered state is scheduled for another region (active ids of two regions get mixed up)' % f.q.split('::')[-3] if f.q.count('::') > 2 else f.q, where=f.at(i))
+
+@rule('endevents')
+def endevents(F, R):
+    """C11.end-events: backmp11 favor_compile_time decides whether a type-erased event ends the interruption by comparing its
+    run-time type with a candidate list generated per machine (one instantiation of the generic lambda per candidate); that list
+    must contain every end-interrupt event the machine's own states declare (EndInterruptFlag<E> in their internal flag list),
+    wherever - if anywhere - the event has a row.  An event missing from it is swallowed although the state declares it."""
+    M = Model(F)
+    for f in F.funcs:
+        if backend_of(f) != 'backmp11' or not f.blocks or f.n != 'is_end_interrupt_event' or f.cls != 'compile_policy_impl': continue
+        pts = f.param_types()
+        if len(pts) < 2 or 'any' not in pts[1]: continue          # the typed variant asks the flag of the static event type
+        m = M.machine_of(strip_cvref(pts[0]))
+        if m is None or M.rows(m.fe) is None: continue
+        declared = set()
+        for s in M.states(m.fe):
+            for fl in M.internal_flags(s):
+                k, a, _rest = parse_type(fl)
+                if k.endswith('EndInterruptFlag') and a: declared.add(strip_cvref(a[0]))
+        if not declared: continue
+        # candidates: the types whose typeid the function (or a lambda defined in it) compares the event's run-time type with
+        cands = set(); nty = 0
+        for g in F.funcs:
+            if g is not f and not any(c.get('f') and c.get('k') == f.k for c in g.d.get('ctx', [])): continue
+            for n in g.nodes:
+                if n and n['k'] == 'typeid' and isinstance(n.get('ty'), int):
+                    nty += 1; cands.add(strip_cvref(F.strs[n['ty']]))
+        if not nty: continue                                       # another comparison scheme: not decidable by this rule (floor)
+        R.seen(f); R.anchor('end-events:fct')
+        missing = sorted(declared - cands)
+        if any(d not in {strip_cvref(str(r['evt'])) for r in M.rows(m.fe)} for d in declared):
+            R.anchor('end-events:fct:event-without-row')
+        R.ob('C11.end-events', not missing, {'func': f.q, 'machine': Facts.short(m.fe, 60), 'declared_end_interrupt_events': sorted(Facts.short(x, 40) for x in declared), 'candidates': len(cands)})
+        if missing:
+            R.find('C11.end-events', f, 'missing:' + ','.join(Facts.short(x, 40) for x in missing),
+                   'the type-erased end-interrupt test of %s compares the event only with %d candidate types, which do not include the end-interrupt event(s) %s declared by its interrupt state: such an event is swallowed while the machine is interrupted' % (Facts.short(m.fe, 50), len(cands), ', '.join(Facts.short(x, 40) for x in missing)))
